@@ -57,8 +57,87 @@ def mk_psr_write(which, excp_return, cfgname, thumb=False):
     return fn
 
 
+RETURNS = {  # exception kind -> (return instruction word (ARM), LR adjustment)
+    'svc': (0xE1B0F00E, 0),      # MOVS PC, LR
+    'undef': (0xE1B0F00E, 0),    # MOVS PC, LR  (returns after the undefined instruction)
+    'irq': (0xE25EF004, 4),      # SUBS PC, LR, #4
+    'fiq': (0xE25EF004, 4),
+    'dabort': (0xE25EF008, 8),   # SUBS PC, LR, #8  (re-executes the aborted instruction)
+}
+
+
+def mk_roundtrip(kind, thumb):
+    """entry + matching standard return: the interrupted program resumes with its CPSR, registers and PC"""
+    def fn(env):
+        from armulator.armv6.arm_exceptions import DataAbortException
+        from armulator.armv6.enums import DAbort
+        from spec import isa
+        from spec.isa import ISA
+        from spec.state import MODE
+        step.load_tables(TABLES)
+        cfg, ov = MC.std_cfg(arch=7, sec=True)
+        word, adj = RETURNS[kind]
+        # handlers run in ARM state, normal vectors, non-monitor routing: SCTLR.TE = 0, V = 0, SCR = 0
+        sctlr = 0x00C50078 & ~(1 << 30) | (1 << 22)
+
+        def build():
+            m = MC.Machine(env, cfg, ov, thumb=thumb, it='any', e_sym=True, set_sys={'sctlr': sctlr, 'scr': 0},
+                           sym_sys={'vbar': 0xFFFFFFE0})
+            S1 = m.pre.copy()
+            {'svc': S1.take_svc_exception, 'undef': S1.take_undef_instr_exception,
+             'irq': S1.take_physical_irq_exception, 'fiq': S1.take_physical_fiq_exception,
+             'dabort': lambda: S1.take_data_abort_exception(alignment_fault=z3.BoolVal(False))}[kind]()
+            S1.branched = z3.BoolVal(False)
+            m.place_instruction(z3.BitVecVal(word, 32), 32, at=S1.R['PC'], thumb=False)
+            S1.mem = m.pre.mem
+            S1.thumb = False
+            E = ISA['SubsPcLrArmA2' if word == 0xE1B0F00E else 'SubsPcLrArmA1']
+            mt, f = E.match(z3.BitVecVal(word, 32))
+            f = {k: z3.simplify(v) for k, v in f.items()}
+            S2, unp, info = isa.step(S1, E, f)
+            env.assume(z3.Not(unp))
+            m.S1, m.S2 = S1, S2
+            return m
+
+        def run(m):
+            r = m.arm.registers
+            {'svc': r.take_svc_exception, 'undef': r.take_undef_instr_exception, 'irq': r.take_physical_irq_exception,
+             'fiq': r.take_physical_fiq_exception,
+             'dabort': lambda: r.take_data_abort_exception(DataAbortException(DAbort.PERMISSION, False))}[kind]()
+            m.arm.emulate_cycle()
+        m = MC.stepper(env, build, run)
+        cl = m.compare(m.S2)
+        snap = m.snapshot()
+        pre = m.pre
+        post_cpsr = to_bv(snap['cpsr'], 32)
+        exp_cpsr = pre.cpsr
+        if kind == 'svc':
+            t = pre.copy()
+            t.it_advance()
+            exp_cpsr = t.cpsr
+        cl.append(holds('CPSR of the interrupted program restored', post_cpsr == exp_cpsr))
+        pc0 = pre.R['PC']
+        if kind in ('svc', 'undef'):
+            # the SVC / undefined instruction has length 4 (ARM) / 2 (Thumb, 16-bit form assumed by the handler LR)
+            exp_pc = pc0 + (2 if thumb else 4)
+        else:
+            exp_pc = pc0
+        cl.append(eq('PC = preferred return address', snap['R.PC'], exp_pc, 32))
+        target = {'svc': 'svc', 'undef': 'und', 'irq': 'irq', 'fiq': 'fiq', 'dabort': 'abt'}[kind]
+        for name in MC.RNAMES:
+            if name == 'PC' or name.endswith(target):
+                continue
+            cl.append(eq('register %s of the interrupted context intact' % name, snap['R.' + name], pre.R[name], 32))
+        return cl
+    return fn
+
+
 def units(tier, seed=0):
     us = []
+    for kind in RETURNS:
+        for thumb in (False, True):
+            us.append(UnitSpec('roundtrip/%s/%s' % (kind, 'thumb' if thumb else 'arm'), 'vf.c12', 'mk_roundtrip',
+                               dict(kind=kind, thumb=thumb), weight=3))
     cfgs = ['sec'] if tier == 'quick' else ['sec', 'nosec', 'virt']
     for cn in cfgs:
         for er in (False, True):
